@@ -21,7 +21,9 @@
 #include <iostream>
 // the lifecycle scenarios need to forward to Http::Handler's private connection callbacks; harness only
 #define private public
+#define protected public      // Transport::peers (the worker's tables are read at the end of a lifecycle scenario)
 #include <pistache/http.h>
+#undef protected
 #undef private
 #include "dump.h"
 #include <pistache/endpoint.h>
@@ -165,7 +167,7 @@ std::string dumpRequest(const Http::Request& req);
 std::string selfDirOf();
 
 // lifecycle log: (client port, event) in the order the handler was told; C = connection, I = input, D = disconnection
-struct LifeLog { std::mutex m; std::vector<std::pair<int, char>> ev; } LIFE;
+struct LifeLog { std::mutex m; std::vector<std::pair<int, char>> ev; std::set<Tcp::Transport*> transports; } LIFE;
 void lifeLog(const std::shared_ptr<Tcp::Peer>& peer, char e)
 {
     int port = static_cast<int>(static_cast<uint16_t>(peer->address().port()));
@@ -240,7 +242,11 @@ class ScriptHandler : public Http::Handler
 public:
     HTTP_PROTOTYPE(ScriptHandler)
 
-    void onConnection(const std::shared_ptr<Tcp::Peer>& peer) override { lifeLog(peer, 'C'); Http::Handler::onConnection(peer); }
+    void onConnection(const std::shared_ptr<Tcp::Peer>& peer) override
+    {
+        { std::lock_guard<std::mutex> g(LIFE.m); LIFE.transports.insert(transport()); }     // the worker's tables are read at the end of a lifecycle scenario
+        lifeLog(peer, 'C'); Http::Handler::onConnection(peer);
+    }
     void onInput(const char* buffer, size_t len, const std::shared_ptr<Tcp::Peer>& peer) override
     {
         lifeLog(peer, 'I');
@@ -892,6 +898,7 @@ std::string opLife(const std::vector<std::string>& w)
     Cfg c; c.hdrMs = atoi(w[1].c_str()); c.bodyMs = c.hdrMs; c.threads = atoi(w[2].c_str()); c.maxResp = 16u << 20;
     auto scripts = split(w[3], ',');
     stopEndpoint();
+    { std::lock_guard<std::mutex> g(LIFE.m); LIFE.transports.clear(); }
     uint16_t port = ensureEndpoint(c);
     RespScript sc; sc.mode = "send"; sc.code = 200; sc.chunks = { "ok" };
     { std::lock_guard<std::mutex> g(G.m); G.script = sc; }
@@ -1002,7 +1009,12 @@ std::string opLife(const std::vector<std::string>& w)
         out += (shape.empty() ? "-" : shape) + "/" + (cs[i].seen.empty() ? "-" : cs[i].seen);
     }
     if (getenv("LIFE_DEBUG")) { for (auto& e : ev) fprintf(stderr, "ev %d %c\n", e.first, e.second); for (auto& k : cs) fprintf(stderr, "conn lport %d\n", k.lport); }
-    return "conns=" + out + " fds=" + std::to_string(after - base) + " serve=" + std::to_string(ok);
+    // the workers' own tables, once every client is gone (also the probe connections above): peer entries, pending-write entries, timers
+    std::this_thread::sleep_for(std::chrono::milliseconds(60));
+    size_t tp = 0, tw = 0, tt = 0;
+    { std::lock_guard<std::mutex> g(LIFE.m);
+      for (auto* tr : LIFE.transports) { tp += tr->peers.size(); { std::lock_guard<std::mutex> g2(tr->toWriteLock); tw += tr->toWrite.size(); } tt += tr->timers.size(); } }
+    return "conns=" + out + " fds=" + std::to_string(after - base) + " serve=" + std::to_string(ok) + " tables=" + std::to_string(tp) + "/" + std::to_string(tw) + "/" + std::to_string(tt);
 }
 
 std::string selfDir();
